@@ -4,7 +4,8 @@ Two correspondence pipelines, both compiled from the tree under test and run in 
   * the shared residue-ring pipeline of C03/C04 (harness/h_modring.cpp section `C04`, driver mode `modinit`): every ring as a map on residues;
   * round 2 (harness/h_c04x.cpp, driver mode `modinitx`): the rings that are Z/p behind another representation -- Montgomery<int32_t>,
     Montgomery<ruint<6|7|8>>, GFqDom<int32_t|int64_t> (exponent k >= 1) -- at the level of the STORED word / table index, against the
-    line-by-line models of Model/ModInitMont.lean and Model/GFqInitInt.lean (theorems: Props/C04Mont.lean, Props/C04GFq.lean).
+    line-by-line models of Model/ModInitMont.lean and Model/GFqInitInt.lean (theorems: Props/C04Mont.lean, Props/C04GFq.lean;
+    Props/C04Ext.lean: ModularExtended init from narrow integers under the quotient-estimate contract).
 """
 import json
 import os
@@ -14,7 +15,7 @@ from vlib import common, report, flow
 from .c03 import ASSUME, RULE
 
 X_TAGS = ("mgx32", "mgr6", "mgr7", "mgr8", "gfx32", "gfx64")
-EXTRA_PROPS = ["GivaroModel/Props/C04Mont.lean", "GivaroModel/Props/C04GFq.lean"]
+EXTRA_PROPS = ["GivaroModel/Props/C04Mont.lean", "GivaroModel/Props/C04GFq.lean", "GivaroModel/Props/C04Ext.lean"]
 
 ASSUME_X = [
     "round 2 (Montgomery rings, GFqDom): the models take the source as an integer; std::fmod, float/double -> integer truncation and Integer % word are exact on "
